@@ -185,7 +185,8 @@ void Search::go()
     VERIF_POINT(GO_ENTRY, this, &stop_search, &_position, 0, 0);
     init_search();
     VERIF_POINT(GO_INIT_DONE, this, &stop_search, &_position, 0, 0);
-    stop_search = false;
+    // stop_search is initialised by the constructor; resetting it here
+    // would discard a stop that arrived before this thread got going
     VERIF_POINT(GO_RESET_DONE, this, &stop_search, &_position, 0, 0);
     _start_time = std::chrono::steady_clock::now();
 
